@@ -29,6 +29,9 @@ pub use peer::Peer;
 mod request_handler;
 mod wire;
 
+#[cfg(bmwill_anemo_verif)]
+pub mod verif;
+
 #[cfg(test)]
 mod tests;
 
